@@ -7,6 +7,6 @@ trap 'rm -rf "$d"' EXIT
 git -C /repo archive HEAD src docs | tar -x -C "$d"
 ( cd "$d" && git init -q . 2>/dev/null && git apply --whitespace=nowarn "$patch" ) || { echo "PATCH DID NOT APPLY"; exit 3; }
 for id in "$@"; do
-  VERIF_REPO=$d VERIF_EVIDENCE_DIR=$d/ev /venv/bin/python /verif/engine/check.py "$id" 2>&1 | grep -v WARNING | sed "s#$d#<scratch>#g" | cut -c1-400
+  VERIF_REPO=$d VERIF_EVIDENCE_DIR=$d/ev /venv/bin/python $(dirname $(readlink -f $0))/../engine/check.py "$id" 2>&1 | grep -v WARNING | sed "s#$d#<scratch>#g" | cut -c1-400
   echo "[$id exit=${PIPESTATUS[0]}]"
 done
